@@ -9,7 +9,7 @@ import nodecheck
 from nodecheck import Obs, kv, run_real
 
 PROP = "C19"
-MODULES = ["DV.Properties.C19", "DV.Properties.C19Hist", "DV.Properties.ConfigTie"]
+MODULES = ["DV.Properties.C19", "DV.Properties.C19Hist", "DV.Properties.ConfigTie", "DV.Properties.C19Release"]
 KEEP = {"SIZE": None, "RES": None}
 
 BASE_OUT = ("NODE host=node.local;realm=realm.local;idle=5;dwa=3;cer=3;cea=3;rq=4;"
